@@ -135,7 +135,12 @@ def sampler_case(skind, name, mk, info, n, k, filt):
         if skind.startswith("adaptive"):
             s.sample_points(params=P)
             loss = env.tensor("loss", (n * max(k, 1),))
-            pts = s.sample_points(unreduced_loss=loss, params=P)
+            P2 = P
+            if k:  # the next call comes with OTHER parameter rows: kept points stay paired with the rows they were drawn for
+                P2, rows2 = SH.params(env, sh.pvars, k, tag="prm2")
+                for prm in rows2:
+                    env.assume(sh.oset.positive(prm, L))
+            pts = s.sample_points(unreduced_loss=loss, params=P2)
         else:
             pts = s.sample_points(P)
         names, dims = list(pts.space.keys()), [pts.space[v] for v in pts.space]
@@ -251,6 +256,9 @@ def cases(tier):
                 if quick and filt and name not in ("Interval", "Circle"):
                     continue
                 cs.append(sampler_case(skind, name, mk, info, 2, k, filt))
+        if name == "Circle[t]" or (name == "Interval[t]" and not quick):
+            cs.append(sampler_case("adaptive_threshold", name, mk, info, 2, 2, False))
+            cs.append(sampler_case("adaptive_random", name, mk, info, 2, 2, False))
         if simple:
             cs.append(sampler_case("gauss", name, mk, info, 2, 0, False))
             cs.append(sampler_case("lhs", name, mk, info, 2, 0, False))
